@@ -145,6 +145,26 @@ func c17Deviations(shape string) []c17Dev {
 		"chains.0.match":      {map[string]any{}, map[string]any{"header": "h"}, map[string]any{"header": "", "prefix": "p"}, map[string]any{"header": "h", "prefix": ""}, map[string]any{"header": "h", "equality": "v"}},
 		"chains.0.filters":    {[]any{}, c17Delete, []any{nil}},
 	}
+	// every odd string in every free-form string field of every OIDC config location
+	for _, loc := range c17OIDCLocations(shape) {
+		for _, f := range []string{"callback_uri", "client_id", "client_secret", "cookie_name_prefix", "authorization_uri", "token_uri", "proxy_uri",
+			"configuration_uri", "jwks", "trusted_certificate_authority", "trusted_certificate_authority_file"} {
+			for i, odd := range oddStrings {
+				v := odd
+				if strings.HasSuffix(f, "_uri") {
+					v = "https://h/p" + odd
+				}
+				ds = append(ds, c17Dev{Path: loc + "." + f, Value: v, Name: fmt.Sprintf("%s.%s#odd%d", loc, f, i)})
+			}
+		}
+		for i, odd := range oddStrings {
+			ds = append(ds, c17Dev{Path: loc + ".logout", Value: map[string]any{"path": "/logout" + odd, "redirect_uri": "https://idp.test/lo" + odd}, Name: fmt.Sprintf("%s.logout#odd%d", loc, i)})
+			ds = append(ds, c17Dev{Path: loc + ".logout", Value: map[string]any{"path": odd, "redirect_uri": odd}, Name: fmt.Sprintf("%s.logout#oddraw%d", loc, i)})
+			ds = append(ds, c17Dev{Path: loc + ".id_token", Value: map[string]any{"header": "h" + odd, "preamble": odd}, Name: fmt.Sprintf("%s.id_token#odd%d", loc, i)})
+			ds = append(ds, c17Dev{Path: loc + ".scopes", Value: []any{odd, "openid"}, Name: fmt.Sprintf("%s.scopes#odd%d", loc, i)})
+			ds = append(ds, c17Dev{Path: loc + ".redis_session_store_config", Value: map[string]any{"server_uri": "redis://h:1/" + odd}, Name: fmt.Sprintf("%s.redis#odd%d", loc, i)})
+		}
+	}
 	var tks []string
 	for k := range top {
 		tks = append(tks, k)
@@ -504,9 +524,14 @@ func c17Run(run *ev.Run) {
 		for i := range ds {
 			cases = append(cases, c17Case{Shape: shape, Devs: []c17Dev{ds[i]}})
 		}
+		isOdd := func(d c17Dev) bool { return strings.Contains(d.Name, "#odd") }
 		for i := range ds {
 			for j := i + 1; j < len(ds); j++ {
-				if ds[i].Path == ds[j].Path {
+				if ds[i].Path == ds[j].Path || (isOdd(ds[i]) && isOdd(ds[j])) {
+					continue
+				}
+				// odd-string deviations pair only with structural (non-odd) ones in the thorough tier
+				if (isOdd(ds[i]) || isOdd(ds[j])) && run.Tier != "thorough" {
 					continue
 				}
 				cases = append(cases, c17Case{Shape: shape, Devs: []c17Dev{ds[i], ds[j]}})
@@ -516,7 +541,7 @@ func c17Run(run *ev.Run) {
 			// triples over a reduced deviation set (every third variant)
 			var red []c17Dev
 			for i, d := range ds {
-				if i%3 == 0 {
+				if i%3 == 0 && !strings.Contains(d.Name, "#odd") {
 					red = append(red, d)
 				}
 			}
